@@ -112,7 +112,7 @@ def sync_twins(wt):
     return wt
 
 
-def gen_worktable(rng, n=None, vclass="int", limits=None, need_trough=False, naming="explicit", small=False):
+def gen_worktable(rng, n=None, vclass="int", limits=None, need_trough=False, naming="explicit", small=False, nonlatin=False):
     n = n or rng.choice([1, 2, 2, 3])
     out = []
     for i in range(n):
@@ -139,7 +139,9 @@ def gen_worktable(rng, n=None, vclass="int", limits=None, need_trough=False, nam
         out.append(d1)
     # rack labels must be distinct; make some of them "interesting" (spaces, latin-1, 32 chars)
     if rng.random() < 0.3:
-        fancy = rng.choice(["MTP 96-well", "Tröge_µ", "R" * 32, "rack.1"])
+        fancy = rng.choice(["MTP 96-well", "Tröge_µ", "R" * 32, "rack.1", "Systemliquid", "Systemliquid", "Waste"])  # incl. built-in EVOware identifiers
+        if nonlatin and rng.random() < 0.35:
+            fancy = rng.choice(["Assay-α", "β-Gal plate", "plate №2"])  # not encodable in the Latin-1 of a .gwl file
         d = out[rng.randrange(len(out))]
         old = d["name"]
         d["name"] = fancy
